@@ -146,6 +146,11 @@ pub fn run_c05(ctx: &mut Ctx) {
         let sc = StreamCase { z, zlib: ctx.rng.chance(1, 2), tag: "random".into(), expect_len: 70000, prefix_of_valid: false, trail: 0 };
         crate::c03::run_stream(ctx, &sc, 2, false);
     }
+    // valid streams under tight output windows (tier boundaries of the decoder: 258/259 bytes of room)
+    for i in 0..(60 * ctx.scale) {
+        let sc = gen_case(ctx, i % 4 == 3);
+        windows(ctx, &sc);
+    }
     for _ in 0..(40 * ctx.scale) {
         let base = gen_case(ctx, false);
         let (z, how) = crate::sgen::mutate(&mut ctx.rng, &base.z);
